@@ -278,7 +278,7 @@ package mcp
 //@   trusted
 //@ func (*Server).openSQLiteStore
 //@   trusted
-//@   ensures result1 == nil ==> result0 != nil
+//@   ensures result1 == nil ==> result0 != nil && result0.db != nil
 //@ extern queue.(*SQLiteStore).Close(s) (err)
 
 //@ extern queue.(*SQLiteStore).CancelMessagesByFilter(s, req) (resp, err)
